@@ -104,7 +104,13 @@ def cases(seed, tier, shard, nshards):
         number_of = {l: n for k, n, l in exp if l}
         kind_of = {l: k for k, n, l in exp if l}
         setup_ = r.choice(c13.SETUPS)
-        yield {'src': src, 'framed': framed, 'number_of': number_of, 'kind_of': kind_of, 'truth': c13.truth(d), 'label_unit': label_units(d),
+        # a quarter of the documents is the second edition of a job: an earlier edition, with the same label names on other objects in
+        # other files, was compiled in the same directory before (its job.paux is still there; it is not this run's business)
+        earlier = None
+        if labels and r.random() < 0.25:
+            earlier = {'src': '\\documentclass{article}\\begin{document}\n' + '\n'.join('\\section{Old%dz}\\label{%s} Old text %d' % (k, l, k) for k, l in enumerate(reversed(labels))) + '\n\\end{document}\n',
+                       'level': r.choice([2, 2, -10])}
+        yield {'earlier': earlier, 'src': src, 'framed': framed, 'number_of': number_of, 'kind_of': kind_of, 'truth': c13.truth(d), 'label_unit': label_units(d),
                'level': r.choice([-10, -1, 0, 1, 1, 2, 2, 3, 4]), 'toc_depth': r.choice([0, 1, 2, 3, 3, 4]), 'toc_non_files': r.random() < 0.4,
                'base_url': r.choice(['', '', 'http://example.org/doc', 'http://example.org/doc/']), 'renderer': setup_[0], 'theme': setup_[1],
                'index': use_index, 'bib': use_bib, 'template': 'index [$id, sect$num(4)]'}
@@ -156,7 +162,13 @@ def run(case, st):
           ('document', 'toc-non-files'): case['toc_non_files'], ('document', 'base-url'): case['base_url']}
     st.feature('settings', 'level=%s/toc=%d/%s' % (case['level'], case['toc_depth'], case['renderer'][:2] + case['theme'][:3]))
     try:
-        out = R.render(case['src'], case['renderer'], ov)
+        if case.get('earlier'):
+            st.counters['second_editions'] += 1
+            pov = dict(ov)
+            pov[('files', 'split-level')] = case['earlier']['level']
+            out = R.render_again(case['earlier']['src'], pov, case['src'], case['renderer'], ov)
+        else:
+            out = R.render(case['src'], case['renderer'], ov)
     except common.CaseTimeout:
         raise
     except Exception as e:
